@@ -358,6 +358,11 @@ class InterpolatableFunction(ABC):
                 resShape = x.shape
             res = np.empty(resShape)
 
+            ## Direct evaluations are handed to the adaptive update only after both sides
+            ## are done: an update in the middle of the call would change the table that
+            ## the masks above refer to
+            directlyEvaluated = []
+
             ## Lower range
             if np.any(xLower):
                 match self.extrapolationTypeLower:
@@ -365,7 +370,9 @@ class InterpolatableFunction(ABC):
                         # TODO better error message, this is nonsensible if x is array or list
                         raise ValueError(f"Out of bounds: {x} < {self._rangeMin}")
                     case EExtrapolationType.NONE:
-                        res[xLower] = self._evaluateDirectly(x[xLower])
+                        fxLower = self._evaluateDirectly(x[xLower], False)
+                        res[xLower] = fxLower
+                        directlyEvaluated.append((x[xLower], fxLower))
                     case EExtrapolationType.CONSTANT:
                         res[xLower] = self.evaluateInterpolation(self._rangeMin)
                     case EExtrapolationType.FUNCTION:
@@ -378,7 +385,9 @@ class InterpolatableFunction(ABC):
                         # TODO better error message, this is nonsensible if x is array or list
                         raise ValueError(f"Out of bounds: {x} > {self._rangeMax}")
                     case EExtrapolationType.NONE:
-                        res[xUpper] = self._evaluateDirectly(x[xUpper])
+                        fxUpper = self._evaluateDirectly(x[xUpper], False)
+                        res[xUpper] = fxUpper
+                        directlyEvaluated.append((x[xUpper], fxUpper))
                     case EExtrapolationType.CONSTANT:
                         res[xUpper] = self.evaluateInterpolation(self._rangeMax)
                     case EExtrapolationType.FUNCTION:
@@ -388,6 +397,10 @@ class InterpolatableFunction(ABC):
             xInside = ~(xLower | xUpper)
             if np.any(xInside):
                 res[xInside] = self.evaluateInterpolation(x[xInside])
+
+            if self._bUseAdaptiveInterpolation:
+                for xDirect, fxDirect in directlyEvaluated:
+                    self.scheduleForInterpolation(xDirect, fxDirect)
 
         return res
 
